@@ -169,6 +169,25 @@ func shape(id string, mr1, mr4 *ppb.Patient) any {
 	return nil
 }
 
+// dedupe removes repeated error classes (the shared library registers some
+// sentinels itself; this command registers the ones its judge reads).
+func dedupe(out lib.Outcome) lib.Outcome {
+	cls, ok := out["cls"].([]string)
+	if !ok {
+		return out
+	}
+	seen := map[string]bool{}
+	uniq := []string{}
+	for _, c := range cls {
+		if !seen[c] {
+			seen[c] = true
+			uniq = append(uniq, c)
+		}
+	}
+	out["cls"] = uniq
+	return out
+}
+
 func main() {
 	if len(os.Args) != 4 || os.Args[1] != "run" {
 		lib.Fatal("usage: c17 run cases.ndjson obs.ndjson")
@@ -263,7 +282,7 @@ func main() {
 			calls = []map[string]any{}
 		}
 		rec.mu.Unlock()
-		if err := w.Write(map[string]any{"id": c.ID, "cs": cases[i].raw, "src": c.Text, "out": out, "calls": calls}); err != nil {
+		if err := w.Write(map[string]any{"id": c.ID, "cs": cases[i].raw, "src": c.Text, "out": dedupe(out), "calls": calls}); err != nil {
 			lib.Fatal("%v", err)
 		}
 	})
